@@ -272,8 +272,10 @@ func RunMutants(repo, prop string, par int) []MutantResult {
 
 var knownKeys map[string]bool
 
+var knownKeysOnce sync.Once
+
 func isKnownKey(k string) bool {
-	if knownKeys == nil {
+	knownKeysOnce.Do(func() {
 		knownKeys = map[string]bool{}
 		kfs, _ := LoadKnownFindings("known-findings.txt")
 		for _, kf := range kfs {
@@ -281,7 +283,7 @@ func isKnownKey(k string) bool {
 				knownKeys[kf.Key] = true
 			}
 		}
-	}
+	})
 	return knownKeys[k]
 }
 
